@@ -215,6 +215,12 @@ def run(chk, mode_filter=None, alg_filter=None, only_cells=False, ids=('T2', 'T2
         t5 = chk.rule('T5', 'submit_new_job: GCM bypass only for IMB_CIPHER_GCM, first stage by chain_order, then RESUBMIT', floor=16)
         t6 = chk.rule('T6', 'a cell that parks jobs in an out-of-order manager flushes the same manager', floor=400)
         run_t7(chk, P)
+        # asm side of T4: stage bits are OR-ed into job->status (rule J2 of C14, shared)
+        from . import c14 as _c14
+        _c14.run_j2(chk, P)
+        # the burst path dispatches by suite id: its guards (stale suite id rejected, ...) are those of the reference tree
+        from . import c12 as _c12
+        _c12.run_v9(chk, P, 'T9', lambda fn: 'burst' in fn, 100)
     nvar = 0
     acc_ref = None
     for tu in P.variant_tus():
